@@ -283,7 +283,7 @@ func TestC04(t *testing.T) {
 		w.File("nm/"+strings.Repeat("n", l), 10, 1)
 		w.File("nm/"+strings.Repeat("d", l)+"/x", 10, 1)
 		w.File(strings.Repeat("R", l)+"/x.bin", 5, 1)
-		runCase("C04:names", sprintf("name length %d", l), false, []Req{mkReq(opOpenFile, "/***DVD***/nm"), rdReq(0, 70000), mkReq(opOpenFile, "/***DVD***/" + strings.Repeat("R", l)), rdReq(32768, 4096), mkReq(opOpenDir, "/nm"), noargReq(opReadDir), mkReq(opOpenDir, "/nm"), noargReq(opReadDirEntry), noargReq(opReadDirEntryV2)})
+		runCase("C04:names", sprintf("name length %d", l), false, []Req{mkReq(opOpenFile, "/***DVD***/nm"), rdReq(0, 70000), mkReq(opOpenFile, "/***DVD***/"+strings.Repeat("R", l)), rdReq(32768, 4096), mkReq(opOpenDir, "/nm"), noargReq(opReadDir), mkReq(opOpenDir, "/nm"), noargReq(opReadDirEntry), noargReq(opReadDirEntryV2)})
 		os.RemoveAll(filepath.Join(w.Root, strings.Repeat("R", l)))
 	}
 	idx++
